@@ -21,6 +21,8 @@
 #ifndef _ST_FORMAT_NUMERIC_H
 #define _ST_FORMAT_NUMERIC_H
 
+#include "st_charbuffer.h"
+
 #include <limits>
 
 namespace _ST_PRIVATE
@@ -32,8 +34,9 @@ namespace _ST_PRIVATE
 
         int format_size = snprintf(buffer, size, format_spec, value);
         ST_ASSERT(format_size > 0, "Your libc doesn't support reporting format size");
-        ST_ASSERT(static_cast<size_t>(format_size) < size, "Format buffer too small");
 
+        // NOTE: The text is truncated if the returned size is >= size.  The
+        // caller must check for that and retry with a large enough buffer.
         return static_cast<size_t>(format_size);
     }
 }
@@ -103,10 +106,18 @@ namespace ST
                 throw ST::bad_format("Unsupported floating-point format specifier");
 
             m_size = _ST_PRIVATE::format_double(m_buffer, sizeof(m_buffer), value, format);
+            if (m_size >= sizeof(m_buffer)) {
+                // Doesn't fit in the local buffer (e.g. "%f" of 1e100)
+                m_big_buffer.allocate(m_size);
+                (void)_ST_PRIVATE::format_double(m_big_buffer.data(), m_size + 1, value, format);
+            }
         }
 
         ST_NODISCARD
-        const char *text() const noexcept { return m_buffer; }
+        const char *text() const noexcept
+        {
+            return (m_size < sizeof(m_buffer)) ? m_buffer : m_big_buffer.data();
+        }
 
         ST_NODISCARD
         size_t size() const noexcept { return m_size; }
@@ -114,6 +125,7 @@ namespace ST
     private:
         char m_buffer[64];
         size_t m_size;
+        ST::char_buffer m_big_buffer;
     };
 }
 
